@@ -172,6 +172,7 @@ func checkC05(w *World, r *Report) {
 	ruleFlushOutcome(w, r, "C05", fi)
 	ruleSuccessorSwap(w, r, "C05", fi)
 	ruleRenderSize(w, r, "C05")
+	checkIteratorConsumers(w, r, "C05")
 	ruleRowsFit(w, r, "C05")
 	ruleHeapIteration(w, r, "C05")
 	checkOneFrame(w, r, "C05")
